@@ -84,17 +84,13 @@ Definition fault_of_tree (t : tree) : option (nat * N) :=
   | _ => None
   end.
 
-Fixpoint run_history (fx : fixes) (cycles : list tree) (s : store) : list tree :=
-  match cycles with
-  | [] => []
-  | c :: rest =>
-      let cfg := config_of_tree (t_nth c 0) in
-      let shipped := content_of_tree (t_nth c 1) in
-      let srv := server_of_tree (t_nth c 2) in
-      let now := Z_of_tree (t_nth c 3) in
-      let '(r, w) := cycle fx cfg shipped srv now (world0 s (fault_of_tree (t_nth c 4))) in
-      result_tree r w :: run_history fx rest (w_store w)
-  end.
+Definition cyc_of_tree (c : tree) : cyc :=
+  {| cy_cfg := config_of_tree (t_nth c 0); cy_shipped := content_of_tree (t_nth c 1);
+     cy_srv := server_of_tree (t_nth c 2); cy_now := Z_of_tree (t_nth c 3);
+     cy_fault := fault_of_tree (t_nth c 4) |}.
+
+Definition run_history (fx : fixes) (cycles : list tree) (s : store) : list tree :=
+  map (fun rw => result_tree (fst rw) (snd rw)) (run_hist fx (map cyc_of_tree cycles) s).
 
 (* op 0: [fixes, [cycles]] -> per-cycle results *)
 Definition run_client (op : N) (a : list tree) : tree :=
